@@ -237,16 +237,17 @@ def main(argv):
                 corr_fail.append({"input": inp, "model": model, "note": "the model runner could not read the abstract program"})
                 continue
             mset = None if model is None else (set() if model == "-" else set(model.split(",")))
+            raw_pred = None if mset is None else sorted(mset)
             if mset and "process" in mset:
                 mset |= ALL_EFFECTS            # a started process (shell) can do anything
             visible = iset - {"stdin_read"}
             if cfg in SANDBOX_CFGS and visible:
                 m = meta.get(cid, {})
-                prop_fail.append({"id": cid, "cfg": cfg, "input": inp, "observed_effects": sorted(iset), "predicted_by_tables": None if mset is None else sorted(mset),
+                prop_fail.append({"id": cid, "cfg": cfg, "input": inp, "observed_effects": sorted(iset), "predicted_by_tables": raw_pred,
                                   "entry": m.get("entry", ""), "kind": m.get("kind", ""), "form": m.get("form", ""), "pre": m.get("pre"), "script": m.get("script"),
                                   "abs": m.get("abs"), "detail": m.get("detail"), "class": m.get("class")})
             elif mset is not None and not iset <= mset:
-                corr_fail.append({"input": inp, "observed_effects": sorted(iset), "predicted_by_tables": sorted(mset)})
+                corr_fail.append({"input": inp, "observed_effects": sorted(iset), "predicted_by_tables": raw_pred})
     c.coverage["compared"] = n
     c.coverage["traces_validated_against_impl"] = n if mout else 0
 
